@@ -58,7 +58,7 @@ ASSUMPTIONS = [
 
 SIG = 'C01/'
 SIG_SQLITE_L0 = 'C01/background-inside-extent/sqlite-level0'
-SIG_SMALL_QUADS = 'C01/misplaced/mesh-quads-under-50px-unchecked'
+SIG_SMALL_QUADS = 'C01/misplaced/mesh-accuracy-test-misses-distortion'
 SIG_TILE_LEVEL = 'C01/misplaced/tile-source-level-picked-by-stretched-resolution'
 SIG_CASCADE_EXTENT = 'C01/background-inside-extent/cascade-extent-from-world-bbox-in-regional-srs'
 SIG_WMTS_FI_ROW = 'C01/featureinfo-misplaced/wmts-row-not-flipped-on-sw-origin-grid'
@@ -365,76 +365,134 @@ def px_in_output(req, res_units, srs_from, grow=None):
     return worst
 
 
-def quad_centre_error_px(src_srs, dst_srs, centre, px, nw, nh):
-    """Error (in destination pixels) that an affine/bilinear mesh quad of nw x nh destination pixels of size px
-    (dst_srs units), centred at `centre` (dst_srs coordinates), makes at its centre when its four corners are
-    transformed exactly from dst_srs to src_srs - the same measure ImageTransformer uses to decide about subdividing
-    a quad."""
-    hx, hy = nw * px[0] / 2.0, nh * px[1] / 2.0
-    xs = [centre[0] - hx, centre[0] + hx, centre[0] - hx, centre[0] + hx, centre[0]]
-    ys = [centre[1] - hy, centre[1] - hy, centre[1] + hy, centre[1] + hy, centre[1]]
-    X, Y = ground.transform(xs, ys, dst_srs, src_srs)
-    if not (np.isfinite(X).all() and np.isfinite(Y).all()):
-        return math.inf
-    mx, my = float(np.mean(X[:4])), float(np.mean(Y[:4]))
-    bx, by = ground.transform(mx, my, src_srs, dst_srs)
-    if not (math.isfinite(float(bx)) and math.isfinite(float(by))):
-        return math.inf
-    return max(abs(float(bx) - centre[0]) / px[0], abs(float(by) - centre[1]) / px[1])
+QUAD_SAMPLES = ((0.5, 0.5), (0.25, 0.25), (0.75, 0.25), (0.25, 0.75), (0.75, 0.75))
 
 
-def unchecked_quad_error(src_srs, dst_srs, centres, px, size=None):
-    """Largest centre error of the mesh quads that ImageTransformer accepts without looking at them (quads narrower
-    or lower than 50 px: a whole image if it is that small, otherwise pieces of up to 49 x 99 px)."""
+def emulated_mesh_error(src_srs, dst_srs, dst_bbox, dst_size, max_quads=600):
+    """Largest error (destination pixels) of the mesh that ImageTransformer.transform_meshes builds for this
+    transformation, sampled at the centre and the quarter points of every quad it accepts.  The accept / divide
+    rules are those of the code under test: a quad narrower or lower than 50 px is accepted unseen, any other quad
+    is accepted when the affine approximation is less than one pixel off *at its centre*.  Used only to recognise
+    views that are exposed to the known weakness of that test (unseen small quads; centre blind to errors that are
+    antisymmetric about it, e.g. Mercator views symmetric about the equator)."""
     if ground._crs_code(src_srs) == ground._crs_code(dst_srs):
         return 0.0
-    if size is not None and (size[0] < 50 or size[1] < 50):
-        shapes = [size]
-        centres = centres[-1:]
-    else:
-        w = size[0] if size is not None else 99
-        h = size[1] if size is not None else 99
-        shapes = [(min(w, 49), min(h, 99)), (min(w, 99), min(h, 49))]
+    w, h = dst_size
+    b = dst_bbox
+    rx = (b[2] - b[0]) / w
+    ry = (b[3] - b[1]) / h
+
+    def errors(q, samples):
+        x0, y0, x1, y1 = q
+        cx = np.array([x0, x0, x1, x1], dtype=float)      # nw, sw, se, ne
+        cy = np.array([y0, y1, y1, y0], dtype=float)
+        SX, SY = ground.transform(b[0] + cx * rx, b[3] - cy * ry, dst_srs, src_srs)
+        if not (np.isfinite(SX).all() and np.isfinite(SY).all()):
+            return None
+        fx = np.array([p[0] for p in samples])
+        fy = np.array([p[1] for p in samples])
+        wts = np.stack([(1 - fx) * (1 - fy), (1 - fx) * fy, fx * fy, fx * (1 - fy)], axis=1)
+        ix, iy = wts.dot(SX), wts.dot(SY)
+        BX, BY = ground.transform(ix, iy, src_srs, dst_srs)
+        if not (np.isfinite(BX).all() and np.isfinite(BY).all()):
+            return None
+        tx = b[0] + (x0 + fx * (x1 - x0)) * rx
+        ty = b[3] - (y0 + fy * (y1 - y0)) * ry
+        return np.abs(BX - tx) / rx, np.abs(BY - ty) / ry, np.maximum(np.abs(BX - tx), np.abs(BY - ty)) / rx
+
+    stack = [(0, 0, w, h)]
     worst = 0.0
-    for c in centres:
-        for nw, nh in shapes:
-            worst = max(worst, quad_centre_error_px(src_srs, dst_srs, c, px, nw, nh))
+    n = 0
+    while stack:
+        q = stack.pop()
+        n += 1
+        if n > max_quads:
+            return math.inf
+        qw, qh = q[2] - q[0], q[3] - q[1]
+        if qw <= 0 or qh <= 0:
+            continue
+        e = errors(q, QUAD_SAMPLES)
+        if e is None:
+            return math.inf
+        accepted = qw < 50 or qh < 50 or e[2][0] < 1.0
+        if accepted:
+            worst = max(worst, float(e[0].max()), float(e[1].max()))
+            continue
+        xc = int(q[0] + qw / 2)
+        yc = int(q[1] + qh / 2)
+        if qw > 2 * qh:
+            stack += [(q[0], q[1], xc, q[3]), (xc, q[1], q[2], q[3])]
+        elif qh > 2 * qw:
+            stack += [(q[0], q[1], q[2], yc), (q[0], yc, q[2], q[3])]
+        else:
+            stack += [(q[0], q[1], xc, yc), (xc, q[1], q[2], yc), (q[0], yc, xc, q[3]), (xc, yc, q[2], q[3])]
     return worst
 
 
-def mesh_exposure(spec, chain, req, levels_res):
-    """How far (px of the respective stage, expressed in output px) the unchecked small mesh quads of the
-    reprojection stages of this view can be off."""
+def meta_tiles_covering(G, cache, meta_capable, z, bbox_g, limit=9):
+    """(bbox, size) of the meta tiles (incl. meta buffer) of `cache` at level z that a rectangle in grid coordinates
+    touches."""
+    rg = confgen.ref_grid(G)
+    res = float(rg.res[z])
+    nx, ny = rg.grid_sizes[z]
+    mx, my = cache['meta_size'] if meta_capable else (1, 1)
+    buf = cache['meta_buffer'] if meta_capable and (mx, my) != (1, 1) or meta_capable else 0
+    if not meta_capable:
+        buf = 0
+    t0 = rg.tile_of_point(bbox_g[0], bbox_g[1], z)
+    t1 = rg.tile_of_point(bbox_g[2], bbox_g[3], z)
+    xs = sorted([min(max(t0[0], 0), nx - 1), min(max(t1[0], 0), nx - 1)])
+    ys = sorted([min(max(t0[1], 0), ny - 1), min(max(t1[1], 0), ny - 1)])
+    out = []
+    for MX in range(xs[0] // mx, xs[1] // mx + 1):
+        for MY in range(ys[0] // my, ys[1] // my + 1):
+            ax, bx_ = MX * mx, min((MX + 1) * mx, nx) - 1
+            ay, by_ = MY * my, min((MY + 1) * my, ny) - 1
+            r0 = rg.tile_rect(ax, ay, z)
+            r1 = rg.tile_rect(bx_, by_, z)
+            rect = (float(min(r0[0], r1[0])) - buf * res, float(min(r0[1], r1[1])) - buf * res,
+                    float(max(r0[2], r1[2])) + buf * res, float(max(r0[3], r1[3])) + buf * res)
+            size = ((bx_ - ax + 1) * rg.tw + 2 * buf, (by_ - ay + 1) * rg.th + 2 * buf)
+            out.append((rect, size))
+            if len(out) >= limit:
+                return out
+    return out
+
+
+def mesh_exposure(spec, chain, req, levels):
+    """How far (output px) the meshes of the reprojection stages of this view can be off because of the weak
+    accuracy test of transform_meshes.  levels: candidate levels per grid of the chain (top first)."""
     R = req['srs']
-    rx = (req['bbox'][2] - req['bbox'][0]) / req['size'][0]
-    ry = (req['bbox'][3] - req['bbox'][1]) / req['size'][1]
-    pts = _view_points(req)
     src = chain['source']
     worst = 0.0
     grids = [spec['grids'][g] for g in chain['grids']]
-    if grids:
-        # stored tiles -> view
-        worst = max(worst, unchecked_quad_error(grids[0]['srs'], R, pts, (rx, ry), tuple(req['size'])))
-        # lower cache -> meta tiles of the upper cache; source image -> meta tiles of the bottom cache
-        stages = [(grids[i + 1]['srs'], grids[i]['srs'], levels_res[i]) for i in range(len(grids) - 1)]
-        sup = source_srs_for(src, grids[-1]['srs'])
-        for S in sup or []:
-            stages.append((S, grids[-1]['srs'], levels_res[-1]))
-        for a, b, L in stages:
-            if ground._crs_code(a) == ground._crs_code(b):
-                continue
-            cs = []
-            for pt in pts:
-                X, Y = ground.transform(pt[0], pt[1], R, b)
-                if math.isfinite(float(X)) and math.isfinite(float(Y)):
-                    cs.append((float(X), float(Y)))
-            if not cs:
-                return math.inf
-            e = unchecked_quad_error(a, b, cs, (L, L))
-            worst = max(worst, e * px_in_output(req, L, b))
-    else:
+    if not grids:
         for S in source_srs_for(src, R) or []:
-            worst = max(worst, unchecked_quad_error(S, R, pts, (rx, ry), tuple(req['size'])))
+            worst = max(worst, emulated_mesh_error(S, R, req['bbox'], tuple(req['size'])))
+        return worst
+    # stored tiles -> view
+    worst = max(worst, emulated_mesh_error(grids[0]['srs'], R, req['bbox'], tuple(req['size'])))
+    # lower cache -> meta tiles of the upper cache; source image -> meta tiles of the bottom cache
+    for i, G in enumerate(grids):
+        cache = chain['caches'][i]
+        if i + 1 < len(grids):
+            sources = [grids[i + 1]['srs']]
+            meta_capable = True
+        else:
+            sources = source_srs_for(src, G['srs']) or []
+            meta_capable = src['type'] == 'wms'
+        sources = [a for a in sources if ground._crs_code(a) != ground._crs_code(G['srs'])]
+        if not sources:
+            continue
+        bg = confgen.dense_bbox(req['bbox'], R, G['srs'])
+        if not all(math.isfinite(v) for v in bg):
+            return math.inf
+        for z in levels[i]:
+            res = confgen.grid_resolutions(G)[z]
+            scale = px_in_output(req, res, G['srs'])
+            for rect, size in meta_tiles_covering(G, cache, meta_capable, z, bg):
+                for a in sources:
+                    worst = max(worst, emulated_mesh_error(a, G['srs'], rect, size) * scale)
     return worst
 
 
@@ -472,7 +530,7 @@ def view_model(spec, chain, req, gnd):
         cand = set(closest_level_spec(res, Fr(a), Fr(115, 100)) for a in asked)
         L = max(float(res[l]) for l in cand)
         out['levels'].append((gname, sorted(cand)))
-        levels_res.append(L)
+        levels_res.append(sorted(cand))
         out['coarse'] = max(out['coarse'], px_in_output(req, L, G['srs']))
         query_ratio = L / q
     # a WMS source that is asked in another SRS delivers an image with square pixels in that SRS, about as many as
@@ -1159,7 +1217,8 @@ def run_view(dep, case, k, rd, gnd, st_, open_sigs=frozenset()):
         signature = sig_for(chain, req, what)
         if what == 'background-inside-extent' and sqlite_l0:
             signature = SIG_SQLITE_L0
-        elif what == 'misplaced' and small_quads:
+        elif small_quads and what in ('misplaced', 'background-inside-extent', 'content-outside-extent',
+                                      'roundtrip-resampled'):
             signature = SIG_SMALL_QUADS
         elif what == 'wmts-row-not-flipped':
             signature = SIG_WMTS_FI_ROW
